@@ -9,7 +9,25 @@ from props import c01, c03
 
 ID = 'C06'
 LEAN_MODULES = ['PybtexModel.Props.C06']
-THEOREMS = {}
+THEOREMS = {
+    'C06_aux_equiv': 'driving the engine through an .aux file produces byte for byte (bbl, reports, printed output) what the explicit call with the style, data files and citations of the .aux file produces; a fatal .aux error / unreadable file is the error of the run',
+    'C06_overrides': 'an explicitly requested style replaces the \\bibstyle of the .aux file; with a bib_format reader its database is what READ uses and the .bib files are neither opened nor looked at',
+    'C06_frame': 'frame property of the interpreter: if two databases agree on the view (type, own and inherited fields, crossref value) of the keys K, then from states that differ in the database only every built-in, token, function body, while$ loop, ITERATE/REVERSE over K, every command except READ and every READ-free program yields results that differ in the database only (or the same error) - for every amount of fuel',
+    'C06_frame_closure': 'the view of a key is determined by its crossref closure: databases with the same entries on a crossref-closed key set agree on it - uncited, unreferenced entries and the order of entries are irrelevant',
+    'C06_frame_read': 'reduction of the READ hypothesis: equal preamble, reader reports and citation resolution (C05) plus agreement on the resolved citations make the two READ steps leave states that differ in the database only',
+    'C06_frame_run': 'two runs of a style pre;READ;post whose READ steps leave states differing in the database only, with databases agreeing on the resolved citations, are equal: same .bbl, reports, printed output or error',
+    'C06_frame_uncited_alt': 'adding or removing an uncited, not-yet-referenced entry in the entry list a bib_format reader delivers does not change the run at all',
+    'C06_one_item_per_citation': 'for the schema READ; [SORT;] ITERATE {f} (and REVERSE) with f emitting exactly one item per call: one item per resolved citation, in citation order / reverse order / sortByKey order = a permutation ascending by sort.key$ in which equal keys keep citation order (stable)',
+    'C06_sort_order_total': "the sort compares keys with a strict total order (Python's < on str): ties are exactly equal keys",
+    'C06_aux_equiv_nonvacuous': 'non-vacuity: a three-line .aux, a two-entry .bib and a tiny style evaluate to the same .bbl through both entry points; an unreadable .aux is the error of the run',
+    'C06_overrides_nonvacuous': 'non-vacuity: a sorting style overrides the unsorted \\bibstyle; a reader database is used although no file with the reader suffix exists',
+    'C06_frame_closure_nonvacuous': 'non-vacuity: two example databases (entries in different order) satisfy the closure hypotheses',
+    'C06_frame_nonvacuous': 'non-vacuity: the example databases agree on the cited keys, differ as databases, and the state after READ is a good state',
+    'C06_frame_read_nonvacuous': 'non-vacuity: the hypotheses of the READ reduction hold for the two example readers',
+    'C06_frame_run_nonvacuous': 'non-vacuity: the hypotheses of the run theorem hold for the two example readers and the runs are equal with the expected .bbl',
+    'C06_frame_uncited_alt_nonvacuous': 'non-vacuity: an uncited entry standing between two cited ones satisfies the side condition',
+    'C06_one_item_per_citation_nonvacuous': 'non-vacuity: f = {cite$ write$ newline$} satisfies the hypotheses for every state and key; the three tiny styles give citation, reverse and sort-key order; a concrete stable sort',
+}
 RULE = ('databases drawn from a pool of 14 realistic entries (all standard types, cross-references, braces, special characters) with '
         'random subsets / permutations (parents after their children), noise entries inserted anywhere, citation lists with and without '
         "'*', unknown keys and case variants, each standard style of tests/data (unsrt, plain, alpha; thorough: abbrv too), both entry "
@@ -136,6 +154,41 @@ def run_aux(case, d):
     return _run(go)
 
 
+def run_cli(case, d):
+    """the command line front end: `pybtex doc.aux [--style S] [-f yaml] --min-crossrefs N` (option plumbing of __main__.py)"""
+    import io as _io
+    import sys
+    import pybtex.io
+    from pybtex import errors
+    from pybtex.__main__ import main
+    argv = ['pybtex', os.path.join(d, 'doc.aux'), '--min-crossrefs', str(case['min_crossrefs'])]
+    if case.get('style_override'):
+        argv += ['--style', os.path.join(d, case['style_override'])]
+    if case.get('yaml'):
+        argv += ['-f', 'yaml']
+    bbl = os.path.join(d, 'doc.bbl')
+    if os.path.exists(bbl):
+        os.unlink(bbl)
+    old = (sys.argv, errors.strict, errors.error_code, pybtex.io.stderr, pybtex.io.stdout, sys.stderr)
+    sys.argv = argv
+    pybtex.io.stderr = sys.stderr = _io.StringIO()
+    pybtex.io.stdout = _io.StringIO()
+    try:
+        try:
+            main()
+            code = 0
+        except SystemExit as e:
+            code = e.code
+        except Exception as e:  # noqa
+            return {'error': ['INTERNAL'], 'detail': '%s: %s' % (type(e).__name__, e)}
+        if not os.path.exists(bbl):
+            return {'error': ['no-output'], 'code': code}
+        with open(bbl, encoding='utf-8', newline='') as f:
+            return {'bbl': f.read(), 'code': code}
+    finally:
+        sys.argv, errors.strict, errors.error_code, pybtex.io.stderr, pybtex.io.stdout, sys.stderr = old
+
+
 def run_files(case, d, keys=None, noise=None, style=None, yaml=None, name='refs'):
     from pybtex.bibtex import format_from_files
     yaml = case.get('yaml') if yaml is None else yaml
@@ -157,6 +210,8 @@ def impl(case):
     try:
         setup_files(case, d)
         out = {'aux': run_aux(case, d), 'files': run_files(case, d)}
+        if case.get('cli'):
+            out['cli'] = run_cli(case, d)
         # metamorphic variants (implementation only)
         if case.get('variant_keys') is not None or case.get('variant_noise') is not None:
             out['variant'] = run_files(case, d, keys=case.get('variant_keys'), noise=case.get('variant_noise'))
@@ -242,6 +297,12 @@ def oracle(case, io, reply):
         which = ' [style override]' if case.get('style_override') else (' [bib_format override]' if case.get('yaml') else '')
         fails.append('aux_equiv%s: driving the engine through the .aux file differs from the equivalent explicit call: %r vs %r' % (
             '/override' if which else '', a['bbl'][:200], f['bbl'][:200]))
+    c = io.get('cli')
+    if c is not None:
+        if 'error' in c:
+            fails.append('aux_equiv/cli: the command line run gave %r (exit %r), make_bibliography an output' % (c['error'], c.get('code')))
+        elif c['bbl'] != a['bbl']:
+            fails.append('aux_equiv/cli: the command line run differs from make_bibliography: %r vs %r' % (c['bbl'][:200], a['bbl'][:200]))
     keys = bibitem_keys(f['bbl'])
     if sorted(k.lower() for k in keys) != sorted(k.lower() for k in io['resolved']):
         fails.append('one_item_per_citation: items %r, resolved citations %r' % (keys, io['resolved']))
@@ -313,7 +374,7 @@ def gen_case(rng, styles):
     seen = {}
     cites = [seen.setdefault(c.lower(), c) for c in cites]
     case = {'op': 'makebib', 'keys': keys, 'citations': cites, 'style': rng.choice(styles), 'min_crossrefs': rng.choice([1, 2, 2, 3]),
-            'noise': [], 'style_override': None, 'yaml': False}
+            'noise': [], 'style_override': None, 'yaml': False, 'cli': rng.random() < 0.4}
     r = rng.random()
     if r < 0.2:
         case['style_override'] = rng.choice([s for s in styles if s != case['style']])
@@ -358,5 +419,21 @@ def gen_cases(tier, rng, info):
     return cases
 
 
-LEVEL_TEXT = 'filled when the proofs are registered'
-LEVEL_NOTE = ''
+LEVEL_TEXT = ('Machine-checked proofs (Lean 4) over an executable model of Engine.make_bibliography, BibTeXEngine.format_from_files and the '
+              'whole BST interpreter (every built-in, READ / ITERATE / REVERSE / SORT): (1) the .aux entry point equals the explicit call byte '
+              'for byte and explicit style / bib_format arguments override the .aux file / the default reader; (2) frame theorem, by '
+              'simultaneous induction on fuel over the six mutually recursive interpreter functions: everything after READ depends on the '
+              'database only through the view (type, own and inherited fields, crossref value) of the resolved citations, which is determined '
+              'by their crossref closure - so two runs whose READ steps resolve the same citations on databases agreeing there produce the same '
+              '.bbl, reports and printed output; inserting an uncited, unreferenced entry into a reader\'s entry list changes nothing; (3) for '
+              'the schema READ; [SORT;] ITERATE {f} exactly one item per resolved citation, in citation / reverse / stable sort.key$ order.  '
+              'Tied to the code by a byte-for-byte correspondence check of the model against the real engine on the standard styles '
+              '(unsrt, plain, alpha) through both entry points with all override combinations, plus metamorphic checks on the implementation.')
+LEVEL_NOTE = ('Trusted: Lean kernel; axioms propext/Classical.choice/Quot.sound only; the hand-written model corresponds to the code only as '
+              'far as the differential check explores.  The step from "the two .bib files differ only in uncited, unreferenced entries or in '
+              'order" to "the READ steps resolve the same citations on agreeing databases" is proved for insertion into a bib_format '
+              'reader\'s entry list (C06_frame_uncited_alt) and reduced to explicit equalities otherwise (C06_frame_read); for .bib text it '
+              'rests on C05\'s filtered-reading theorem (with its ordering proviso: a cross-referenced parent must follow its children) and '
+              'on the correspondence check.  C06_one_item_per_citation takes "f emits exactly one item" as a hypothesis about the style '
+              '(proved for a tiny style in the non-vacuity theorem, checked on the standard styles by the harness).  Whole-run theorems are '
+              'stated for styles with a single READ (all styles in existence).')
